@@ -99,6 +99,81 @@ CHECKS.update({
         technique="TLA+ scan/analysis model checked with TLC + " + TRACEBC),
 })
 
+TRACECK = ("TLC validation (spec/trace/TraceChecker.tla) of what the real two-pass checker returned and of what every "
+           "reporting leaf saw, against Checker!TwoPass, which evaluates the same node programs with the VM specification")
+CHECKS.update({
+    "C01": dict(
+        level="model_checking", design="6/C01",
+        text="MC_Checker.tla: TLC checks the operational two-pass evaluation (Kahn levels, index order, caches, run-mode "
+             "filtering, failure collection) against the declarative reference (each node once on its parents' outputs in "
+             "ascending parent order; malformed / cyclic / dangling graphs rejected with nothing evaluated) for EVERY raw "
+             "encoding with <=3 nodes, <=2|3 edges, every edge_start, every placement of post reads, one misbehaving node, "
+             "both collect_all values. The checker driver runs the real check_and_compute_solution_set_two_pass on every "
+             "such encoding with self-reporting programs and on random graphs (<=12 nodes, random numbering, multi-edges, "
+             "cycles, dangling edges, 1-3 solutions); verdict, failing indices, gas, returned mutations and every leaf's "
+             "inherited stack and memory are validated by TLC.",
+        note="graphs beyond 12 nodes are not sampled; the two run modes over a caller-supplied cache are exercised through "
+             "the two-pass entry point only.",
+        technique="TLA+ checker model vs declarative reference model-checked with TLC + " + TRACECK),
+    "C03": dict(
+        level="model_checking", design="6/C03",
+        text="MC_Overlay.tla: ReadOrFallback (contract shortcut, per-key loop, carry, end of key space) = RefRead for every "
+             "start key of length 1..2 over {MAX-1,MAX,MIN,0,1}, counts 0..4, own / foreign contract and every pre-state / "
+             "mutation set on the keys of the range; MC_Checker.tla: the deferred set is exactly the post readers and their "
+             "dependents and deferred nodes see the post-state. The overlay driver runs real two-pass checks in which a "
+             "data-output leaf computes part of the mutations, a deferred chain reads own / external post-state ranges and a "
+             "separate leaf reads the same range from the pre-state; what each read returned is reported and validated.",
+        note="values and keys are short (<=2 words); the pre-state is the harness' map (n consecutive keys).",
+        technique="TLA+ overlay / deferral models checked with TLC + " + TRACECK),
+    "C04": dict(
+        level="model_checking", design="6/C04",
+        text="MC_Set.tla: for every set of 2 (thorough 3) solutions over two contracts with declared and computed mutations "
+             "on two keys and every permutation, an accepted set gives the same verdict, gas, per-solution mutations and "
+             "post-state observations, and proposes one value per slot. The perm driver validates random sets in up to 4 "
+             "orders against the specification and compares the orders directly (content address, check_set, verdict, gas, "
+             "mutations).",
+        note="sets of up to 3 solutions; MAX_SOLUTIONS-sized sets are covered for validation only (C16).",
+        technique="TLA+ permutation-invariance model checked with TLC + " + TRACECK),
+    "C06": dict(
+        level="model_checking", design="6/C06",
+        text="MC_Encodings.tla: the decoders are total state machines - every word string of <=5|6 words over the boundary "
+             "alphabet has an ok / typed-error answer and what is accepted re-encodes to a prefix; truncations of predicate "
+             "encodings are rejected. The same strings go through the real decode_mutation / decode_mutations and, as "
+             "data-output memories, through the real checker; predicate bytes (random, truncated, mutated), unparsable "
+             "programs at every graph position, absurd key-range counts, and byte strings through from_bytes / "
+             "BytecodeMapped::try_from: results validated by TLC, panics caught and never accepted.",
+        note="finding F8b (huge post-state read count does not return) is open; allocation aborts are not catchable in-process.",
+        technique="TLA+ decoder state machines model-checked with TLC + TLC validation of the real decoders' answers"),
+    "C16": dict(
+        level="model_checking", design="6/C16",
+        text="MC_Validators.tla: the validators in code order accept exactly the documented conditions for all sets / "
+             "contracts built from a menu at, below and above every (shrunk) limit with slot collisions in and across "
+             "solutions. The validators driver probes the real constants (100/100/10000/1000/1000/10000; 1000/1000/100) at "
+             "limit-1/limit/limit+1, pairwise, all at once, signed contracts with good / tampered / malformed signatures; "
+             "every set returned by the two-pass check on a valid input is re-validated with check_set.",
+        note="inputs are size descriptors (all the validators inspect); signature recoverability is computed with secp256k1 directly.",
+        technique="TLA+ validators vs documented acceptance conditions checked with TLC + TLC validation of real verdicts"),
+    "C17": dict(
+        level="model_checking", design="6/C17",
+        text="MC_Encodings.tla: pre-hash encodings are injective on all pairs of small predicates / mutation lists / "
+             "solutions, the encoded size equals the length. Oracle evaluation: TLC derives from the specification the bytes "
+             "that must be hashed for random predicates, solutions, contracts (multiset of member encodings + salt) and sets; "
+             "the harness hashes them with SHA-256 and compares with the real content_addr, Address trait, "
+             "from_contract / from_predicate_addrs(_slice) / from_set / from_solution_addrs(_slice) under 4 permutations each.",
+        note="SHA-256 is trusted / assumed collision free; member addresses are sorted by the harness as prescribed.",
+        technique="TLA+ pre-image definitions model-checked for injectivity + TLC-generated pre-images replayed against the real hash crate"),
+    "C18": dict(
+        level="model_checking", design="6/C18",
+        text="MC_Encodings.tla: decode o encode = id for predicates and mutation lists, NodeEdges is the documented "
+             "sub-range. The real Predicate::encode/decode/encoded_size/node_edges, encode/decode_mutations, word/byte "
+             "conversions (big-endian, 4x8, 8x8) are validated by TLC on exhaustive small and random values; every public "
+             "type is round-tripped through serde_json, postcard, Display/FromStr and the legacy field names, and the "
+             "postcard bytes of Solution are compared with the specification's transcription.",
+        note="serde_json / postcard internals are trusted; for derived impls the specification is thin (round-trip identity): "
+             "that part is exploration-level.",
+        technique="TLA+ codec round-trip properties checked with TLC + TLC validation of the real codecs' outputs"),
+})
+
 NOT_YET = {
 }
 
